@@ -374,11 +374,25 @@ class FunctionTerms:
             kws = []
             for k in e.keywords:
                 kws.append((k.arg, self.ev(k.value, env, ctx)))
+            arg_nodes = list(e.args)
+            kw_nodes = {k.arg: k.value for k in e.keywords}
+            # canonical argument form: keywords that continue the positional prefix of a callee whose signature is certain are recorded
+            # positionally, so that f(a, b) and f(x=a, y=b) are one term (evaluation order of the arguments is the source order)
+            if kws and not any(isinstance(a, ast.Starred) for a in e.args) and all(k for k, _ in kws):
+                sig = self.prog.call_signature(f)
+                if sig is not None:
+                    kd = dict(kws)
+                    i = len(args)
+                    while i < len(sig) and sig[i] in kd:
+                        args.append(kd.pop(sig[i]))
+                        arg_nodes.append(kw_nodes.pop(sig[i]))
+                        i += 1
+                    kws = [(k, v) for k, v in kws if k in kd]
             t = ("call", f, tuple(args), tuple(kws))
             name = e.func.attr if isinstance(e.func, ast.Attribute) else (e.func.id if isinstance(e.func, ast.Name) else None)
             recv = f[1] if f[0] == "attr" else None
             self.emit("call", e, ctx, name=name, func=f, args=tuple(args), kwargs=dict(kws), term=t, recv=recv,
-                      arg_nodes=list(e.args), kw_nodes={k.arg: k.value for k in e.keywords})
+                      arg_nodes=arg_nodes, kw_nodes=kw_nodes)
             return t
         if isinstance(e, ast.Subscript):
             return ("index", self.ev(e.value, env, ctx), self.ev_slice(e.slice, env, ctx))
